@@ -109,12 +109,21 @@ class C02(Check):
             ctx.prove(ess2 * sW2 == sW * sW, "ess_helper")
             ee = sx.term(s.evidence_error)
             Zs = sW / N
-            ctx.prove(
-                z3.And(ee >= 0, ee * ee * (N * (N - 1)) == sum([(a - Zs) * (a - Zs) for a in W[1:]], (W[0] - Zs) * (W[0] - Zs))),
-                "evidence_error",
-            )
             lee = sx.term(s.log_evidence_error)
-            ctx.prove(z3.And(lee >= 0, lee * Zs == ee), "log_evidence_error")
+            sq = z3.Sum([(a - Zs) * (a - Zs) for a in W])
+            if core.is_uf_app(lee, "SQRT"):
+                # staged (lemma chaining): the radicand is a polynomial identity,
+                # it is non-negative, hence the root squares to it
+                rad = lee.arg(0)
+                ctx.prove(rad * (N * (N - 1)) * Zs * Zs == sq, "log_evidence_error/radicand")
+                ctx.prove(rad >= 0, "log_evidence_error/radicand_nonneg")
+                ctx.prove(z3.Implies(rad >= 0, z3.And(lee >= 0, lee * lee == rad)), "log_evidence_error/root")
+                got = z3.And(lee >= 0, lee * lee == rad, rad * (N * (N - 1)) * Zs * Zs == sq)
+                ctx.prove(z3.Implies(got, z3.And(lee >= 0, lee * lee * (N * (N - 1)) * Zs * Zs == sq)), "log_evidence_error")
+                ctx.prove(ee == lee * Z, "evidence_error")
+            else:
+                ctx.prove(z3.And(lee >= 0, lee * lee * (N * (N - 1)) * Zs * Zs == sq), "log_evidence_error")
+                ctx.prove(z3.And(ee >= 0, ee * ee * (N * (N - 1)) == sq), "evidence_error")
             sc = sx.terms(s.scaled_weights)
             for i in range(N):
                 ctx.prove(z3.And(*[sc[i] * W[j] <= W[i] for j in range(N)], z3.Or(*[sc[i] * W[j] == W[i] for j in range(N)])), "scaled_weights")
@@ -183,7 +192,13 @@ class C02(Check):
             s2 = Samples(x=x[p], log_likelihood=ll[p], log_prior=lp[p], log_q=lq[p], xp=sx)
             ctx.prove(sx.term(sx.exp(s2.log_evidence)) == sx.term(sx.exp(s.log_evidence)), "perm_evidence")
             ctx.prove(sx.term(s2.effective_sample_size) == sx.term(s.effective_sample_size), "perm_ess")
-            ctx.prove(sx.term(s2.evidence_error) == sx.term(s.evidence_error), "perm_error")
+            e1, e2 = sx.term(s.log_evidence_error), sx.term(s2.log_evidence_error)
+            if core.is_uf_app(e1, "SQRT") and core.is_uf_app(e2, "SQRT"):
+                # equal radicands give equal roots (congruence); the radicand is
+                # pinned to the specification in the `weights` configurations
+                ctx.prove(e1.arg(0) == e2.arg(0), "perm_error")
+            else:
+                ctx.prove(e1 == e2, "perm_error")
             a, b = sx.terms(s2.log_w), sx.terms(s.log_w)
             for k, i in enumerate(perm):
                 ctx.prove(a[k] == b[i], "perm_log_w")
